@@ -57,7 +57,7 @@ def load_known_findings():
         kind, _, rest = ln.partition(":")
         kind = kind.strip()
         if kind not in ("open", "fixed"):
-            raise SystemExit("known_findings.txt: bad line: " + ln)
+            raise RuntimeError("known_findings.txt: bad line: " + ln)
         d = {"kind": kind}
         for tok in shlex.split(rest):
             if "=" in tok:
@@ -427,7 +427,7 @@ def select(reg, pid, tier, kfs, seed=0):
                 continue
             got = [e for e in wit if (e["name"].startswith(pat[:-1]) if pat.endswith("*") else e["name"] == pat)]
             if not got:
-                raise SystemExit("known finding %s: witness harness %s not in registry" % (k["id"], pat))
+                raise RuntimeError("known finding %s: witness harness %s not in registry" % (k["id"], pat))
             es += got
         for e in es:
             claimed.add(e["name"])
@@ -774,8 +774,12 @@ def main():
     jobs = a.jobs or min(16, os.cpu_count() or 4)
     try:
         rc = do_check(a.pid, a.tier, seed, jobs, a.keep or os.environ.get("VERIF_KEEP") == "1")
-    except RuntimeError as e:
-        log("INCONCLUSIVE: " + str(e))
+    except SystemExit:
+        raise
+    except BaseException as e:  # an internal error of the machinery is never a verdict
+        import traceback
+        traceback.print_exc()
+        log("INCONCLUSIVE: internal error of the checking machinery: %r" % (e,))
         rc = 2
     sys.exit(rc)
 
